@@ -252,7 +252,7 @@ static void run_case(toks & tk, const std::string & certdir)
             else if (k == "T") { a1 = tk.next(); }
             else if (k == "N") { a1 = tk.nhex(); a2 = tk.nhex(); }
             else if (k == "D" || k == "Da") { a1 = tk.nhex(); cb_answers = read_cb(tk, has_cb); if (tk.nbool()) fail_at = tk.nint(); }
-            else if (k == "Z") { has_arg = tk.nbool(); }
+            else if (k == "Z") { std::string zv = tk.next(); has_arg = zv != "0"; port = (zv == "2") ? 1 : 0; }
             else if (k == "W") { port = tk.nint(); }
             else if (k == "U" || k == "Ua") { upv = tk.next(); a1 = tk.nhex(); long n = tk.nint(); for (long i = 0; i < n; i++) chunks.push_back(tk.nhex()); cb_answers = read_cb(tk, has_cb); }
             else if (k == "F") { has_arg = tk.nbool(); if (has_arg) a1 = tk.nhex(); names = tk.nbool(); }
@@ -299,10 +299,11 @@ static void run_case(toks & tk, const std::string & certdir)
                     // a process that receives signals all the time (an interval timer with a restarting handler), from now
                     // on / no longer: system calls of the transfers that follow are interrupted again and again
                     struct sigaction sa; memset(&sa, 0, sizeof sa);
-                    sa.sa_handler = on_alarm; sa.sa_flags = SA_RESTART; sigemptyset(&sa.sa_mask);
+                    // (mode 2: a handler installed WITHOUT SA_RESTART, every 40 ms: blocked system calls fail with EINTR)
+                    sa.sa_handler = on_alarm; sa.sa_flags = port ? 0 : SA_RESTART; sigemptyset(&sa.sa_mask);
                     sigaction(SIGALRM, &sa, nullptr);
                     struct itimerval it; memset(&it, 0, sizeof it);
-                    if (has_arg) { it.it_interval.tv_usec = 700; it.it_value.tv_usec = 700; }
+                    if (has_arg) { it.it_interval.tv_usec = port ? 40000 : 700; it.it_value.tv_usec = port ? 40000 : 700; }
                     setitimer(ITIMER_REAL, &it, nullptr);
                     out = "ret:unit";
                 }
